@@ -46,6 +46,13 @@ def preload():
     blk_to.add_node('X1', atomname='X1', resname='X', resid=1)
     map_x = Mapping(blk_from, blk_to, {'A': {'X1': 1}, 'B': {'X1': 1}}, {}, ff_from=ff_aa, ff_to=ff_cg, names=('X',))
 
+    z_from = Block(force_field=ff_aa, name='Z')
+    z_from.add_nodes_from([('ZA', dict(atomname='ZA', resname='Z', resid=1)), ('ZB', dict(atomname='ZB', resname='Z', resid=1))])
+    z_from.add_edge('ZA', 'ZB')
+    z_to = Block(force_field=ff_cg, name='Z', nrexcl=1)
+    z_to.add_node('Z1', atomname='Z1', resname='Z', resid=1)
+    map_z = Mapping(z_from, z_to, {'ZA': {'Z1': 1}, 'ZB': {'Z1': 1}}, {}, ff_from=ff_aa, ff_to=ff_cg, names=('Z',))
+
     mods = {}
     p_from = Link(force_field=ff_aa, name='P')
     p_from.add_node('B', atomname='B', PTM_atom=False)
@@ -80,7 +87,7 @@ def preload():
     r_from.add_edge('B', 'R')
     mods['R'] = r_from
     _STATE.update(ff_aa=ff_aa, ff_cg=ff_cg, mods=mods,
-                  mappings={'c01mod_aa': {'c01mod_cg': {('X',): map_x, ('P',): map_p, ('Q',): map_q}}})
+                  mappings={'c01mod_aa': {'c01mod_cg': {('X',): map_x, ('Z',): map_z, ('P',): map_p, ('Q',): map_q}}})
 
 
 def _strategy(tier):
@@ -91,6 +98,9 @@ def _strategy(tier):
         'ptm_last': st.booleans(),
         'resid0': st.sampled_from([1, 1, 5, 40]),
         'via': st.sampled_from(['function', 'processor', 'processor-used-before']),
+        # one residue of another kind (atoms ZA-ZB -> particle Z1) whose atom ZB may have been renamed by an earlier stage: the
+        # atom then carries its original name as _old_atomname, and that is the name mappings go by
+        'z_at': st.one_of(st.none(), st.integers(0, 7)), 'z_renamed': st.booleans(),
     })
 
 
@@ -101,19 +111,32 @@ def _build(case):
     pending = []
     layout = []
     prev_b = None
+    z_at = case.get('z_at')
+    if z_at is not None:
+        z_at = z_at % len(case['residues'])
     for ridx, names in enumerate(case['residues']):
+        is_z = ridx == z_at
+        if is_z:
+            names = []
         attached = [mods[n] for n in names]
-        common = dict(resname='X', resid=case['resid0'] + ridx, chain='A')
+        common = dict(resname='Z' if is_z else 'X', resid=case['resid0'] + ridx, chain='A')
         extra = {'modifications': list(attached)} if attached else {}
         a_key, b_key = key, key + case['keystep']
-        mol.add_node(a_key, atomname='A', element='C', **common, **extra)
-        mol.add_node(b_key, atomname='B', element='C', **common, **extra)
+        if is_z:
+            mol.add_node(a_key, atomname='ZA', element='C', **common)
+            if case.get('z_renamed'):
+                mol.add_node(b_key, atomname='ZQ', _old_atomname='ZB', element='C', **common)
+            else:
+                mol.add_node(b_key, atomname='ZB', element='C', **common)
+        else:
+            mol.add_node(a_key, atomname='A', element='C', **common, **extra)
+            mol.add_node(b_key, atomname='B', element='C', **common, **extra)
         mol.add_edge(a_key, b_key)
         if prev_b is not None:
             mol.add_edge(prev_b, a_key)
         prev_b = b_key
         key = b_key + case['keystep']
-        entry = {'A': a_key, 'B': b_key, 'mods': list(names), 'ptm': {}}
+        entry = {'A': a_key, 'B': b_key, 'mods': list(names), 'ptm': {}, 'z': is_z}
         for name in names:
             chain = {'P': [('P', 'B')], 'Q': [('Q1', 'A'), ('Q2', 'Q1')], 'R': [('R', 'B')]}[name]
             atoms = [(atom, parent, common, extra) for atom, parent in chain]
@@ -180,7 +203,9 @@ def _run(case):
     by_name = {}
     for idx in out.nodes:
         by_name.setdefault(out.nodes[idx].get('atomname'), []).append(idx)
-    want_counts = {'X1': len(layout), 'PB': sum('P' in e['mods'] for e in layout), 'QA': sum('Q' in e['mods'] for e in layout)}
+    n_z = sum(1 for e in layout if e.get('z'))
+    want_counts = {'X1': len(layout) - n_z, 'Z1': n_z, 'PB': sum('P' in e['mods'] for e in layout),
+                   'QA': sum('Q' in e['mods'] for e in layout)}
     got_counts = {name: len(by_name.get(name, [])) for name in want_counts}
     other = sorted(str(n) for n in by_name if n not in want_counts)
     if got_counts != want_counts or other:
@@ -188,9 +213,10 @@ def _run(case):
                         'exactly one copy of its target' % (label, got_counts, other, want_counts))
     x1_of = {}
     for ridx, entry in enumerate(layout):
-        found = [idx for idx, w in holders.get(entry['A'], []) if out.nodes[idx]['atomname'] == 'X1']
+        pname = 'Z1' if entry.get('z') else 'X1'
+        found = [idx for idx, w in holders.get(entry['A'], []) if out.nodes[idx]['atomname'] == pname]
         if len(found) != 1:
-            raise Violation('mod-block-particle', '%s: atom A of residue %d is recorded by %d X1 particles' % (label, ridx, len(found)))
+            raise Violation('mod-block-particle', '%s: first atom of residue %d is recorded by %d %s particles' % (label, ridx, len(found), pname))
         x1 = found[0]
         x1_of[ridx] = x1
         want = {entry['A']: 1, entry['B']: 1}
@@ -253,6 +279,8 @@ def _run(case):
         classes.append('modification-without-mapping')
     if any(e['mods'] and layout[i + 1]['mods'] for i, e in enumerate(layout[:-1])):
         classes.append('neighbouring-modified-residues')
+    if n_z and case.get('z_renamed'):
+        classes.append('block-fits-through-_old_atomname-only')
     return Outcome(classes, apart)
 
 
